@@ -119,13 +119,15 @@ def cases(tier, seed):
     # ---- core
     ns = [3, 5, 6] if not thorough else [2, 3, 5, 6, 8]
     for n in ns:
-        for spec in ("sep", "clus", "deg2", "deg3"):
+        for spec in ("sep", "clus", "deg2", "deg3", "deg0"):
             if spec == "deg3" and n < 3:
                 continue
             lam = spectrum(spec, n)
             for mode in ("lowest", "uppest"):
                 for neig in _neigs(lam, mode, thorough):
                     for (m, b, d) in grid:
+                        if spec == "deg0" and (m == "davidson" or b not in ("na", "exactsolve")):
+                            continue        # the null-space cluster is enumerated for the dense paths
                         for opkind in ("dense", "mfree"):
                             if not _combo_ok(thorough, m, b, opkind, n):
                                 continue
@@ -139,8 +141,10 @@ def cases(tier, seed):
     # ---- batch
     for n in ([3] if not thorough else [3, 5]):
         for batch in ("2|", "|2"):
-            for spec in ("sep", "deg2"):
-                lam = spectrum(spec, n)
+            for spec in ("sep", "deg2", "mix2"):
+                if spec == "mix2" and batch != "2|":
+                    continue
+                lam = spectrum("deg2" if spec == "mix2" else spec, n)
                 for mode in ("lowest", "uppest"):
                     for neig in boundary_neigs(lam, mode, 0.0):
                         for (m, b, d) in grid:
@@ -151,6 +155,8 @@ def cases(tier, seed):
                                     if batch == "|2" and not M:
                                         continue
                                     for param in ("P1", "P2"):
+                                        if spec == "mix2" and param != "P1":
+                                            continue
                                         for order in (1, 2):
                                             out.append({"fam": "symeig", "method": m, "bck": b, "M": M,
                                                         "opkind": opkind, "n": n, "neig": neig, "mode": mode,
@@ -299,8 +305,17 @@ def run_symeig(cfg):
     n, neig, mode, order = cfg["n"], cfg["neig"], cfg["mode"], cfg["order"]
     useM = bool(cfg["M"])
     g = _gen_for(cfg)
-    lam = spectrum(cfg["spectrum"], n)
-    lam_t = torch.tensor(lam, dtype=torch.float64)
+    mixed = cfg["spectrum"] == "mix2"
+    if mixed:
+        # batch of two matrices of which only the first has coinciding eigenvalues; the clusters (groups of the loss)
+        # are those of the degenerate element, for the other element they are groups of separated eigenvalues
+        lam = spectrum("deg2", n)
+        lam_lists = [lam, spectrum("sep", n)]
+        lam_t = torch.tensor(lam_lists, dtype=torch.float64)
+    else:
+        lam = spectrum(cfg["spectrum"], n)
+        lam_lists = [lam]
+        lam_t = torch.tensor(lam, dtype=torch.float64)
     bA, bM = BATCH[cfg["batch"]]
     bshape = tuple(torch.broadcast_shapes(bA, bM if useM else ()))
     sel = selected(n, neig, mode)
@@ -323,9 +338,9 @@ def run_symeig(cfg):
     if P1:
         if useM:
             L0 = torch.linalg.cholesky(Mbase)
-            A0 = sym(L0 @ ((Q0 * lam_t.to(dt)) @ hc(Q0)) @ hc(L0))
+            A0 = sym(L0 @ ((Q0 * lam_t.to(dt)[..., None, :]) @ hc(Q0)) @ hc(L0))
         else:
-            A0 = sym((Q0 * lam_t.to(dt)) @ hc(Q0))
+            A0 = sym((Q0 * lam_t.to(dt)[..., None, :]) @ hc(Q0))
         leaves = [A0.clone().requires_grad_()]
         names = ["A"]
         if useM:
@@ -445,7 +460,7 @@ def run_symeig(cfg):
 
     # conditioning: distance of every cluster used by an eigenvector loss to the rest of the spectrum
     cmax = float(cs.max())
-    gap_vec = min([gap_to_rest(lam, c) for c in cl] + [2.0]) / cmax
+    gap_vec = min([gap_to_rest(ll, c) for ll in lam_lists for c in cl] + [2.0]) / cmax
     degany = any(len(c) > 1 for c in cl_all)
     judged = not (order == 2 and P1 and degany)
     viol, info, obs = [], [], {}
